@@ -9,7 +9,7 @@ from .c13 import render
 PROP = "C14"
 V, I, S = A.Var, A.Int, A.Str
 
-ROUTE_OPS = ["var", "arg", "list", "ret", "assign", "overwrite", "overwrite_elem", "dot0", "idx0", "dot1", "idx1", "nested1", "obj_lit"]
+ROUTE_OPS = ["var", "arg", "list", "list_destructure", "for_list", "ret", "assign", "overwrite", "overwrite_elem", "dot0", "idx0", "dot1", "idx1", "nested1", "obj_lit"]
 
 
 def make_probe(desc, k):
@@ -149,6 +149,10 @@ def make_probe(desc, k):
                 stmts.append(A.Declare(V(nv), A.call(ident, prev)))
             elif op == "list":
                 stmts.append(A.Declare(V(nv), A.Index(A.lst(I(0), prev), I(1))))
+            elif op == "list_destructure":
+                stmts.append(A.Declare(A.lst(V("_"), V(nv)), A.lst(I(0), prev)))
+            elif op == "for_list":
+                stmts += [A.Declare(V(nv), A.Null()), A.For(A.lst(V("_"), V("fe%d_%d" % (k, n))), A.lst(prev), [A.Assign(V(nv), V("fe%d_%d" % (k, n)))])]
             elif op == "ret":
                 stmts += [A.FuncStmt("rt%d_%d" % (k, n), [], False, [A.Return(prev)]), A.Declare(V(nv), A.call("rt%d_%d" % (k, n)))]
             elif op in ("dot0", "dot1", "idx0", "idx1"):
